@@ -47,3 +47,22 @@ PROPS = {
         "assumptions": ["inputs are NaN-free; -0 and +0 are identified (total_cmp distinguishes them, the model does not)"],
     },
 }
+
+PROPS["C17"] = {
+    "title": "Contour tracing returns exactly the boundary of the sampled shape",
+    "gen_modules": ["Contour"],
+    "corr_n": (20000, 400000),
+    "search_n": (20000, 400000),
+    "technique": "Lean 4 theorems (decide over the whole 16-cell table, edge-id algebra, merged-run separation) over translated kernels + exhaustive exact correspondence of the scan and trace models",
+    "level_text": "The marching-squares table, corner-bit packing, edge numbering and its inverse are regenerated from the Rust source on every run and proved correct for the whole "
+                  "(finite) cell domain and all positions: a cell connects exactly the sides whose corners differ, each once; neighbouring cells share edge ids; ids are injective; "
+                  "to_contour_coords inverts at_coordinates; merged runs are strictly separated. The scan iterator and the loop tracer are literal hand models, compared verbatim "
+                  "(cells) and up to rotation/direction/order (loops) with the implementation on every bitmap up to 4x3/3x4 (quick) and 4x4, 5x4, 4x5 (thorough) plus random bitmaps to 64x64; "
+                  "the driver also checks the implementation's cells against the mixed-cell specification and its loops against the set of boundary edges.",
+    "level_note": "Partial: that the iterator model yields exactly the mixed cells (scan_spec) and that the tracer uses every boundary edge once (trace_loops) are established for every bitmap "
+                  "in the exhaustive range and sampled beyond it, not yet as unbounded theorems. HashMap iteration order is canonicalised away. " + COMMON_NOTE,
+    "rule": "exhaustive enumeration of all bitmaps of the listed sizes (with and without an empty border arise as sub-cases), then random bitmaps 1..64 x 1..64 of kinds "
+            "full/empty/checkerboard/single pixel/noise/ring/blocks/noise with border. Non-trivial: neither empty nor full; distinct by size and bits.",
+    "trusted_base": ["hand-written model Model/Contour.lean of the scan iterator and tracer (tied by exhaustive correspondence)"],
+    "assumptions": ["the bitmap vector has width*height entries (the Rust code indexes without bounds checks otherwise)"],
+}
